@@ -76,6 +76,7 @@ PROPS = {
         "assumptions": [
             "programs are abstracted to APF: per declaration the preorder node list ast.Inspect visits, with go/types information attached; DeclShape (FuncDecl nodes only head func declarations) is go/ast's shape and is checked on every input (wf=ok)",
             "supported fragment as stated by the property: non-generic defined types, direct imports; write / use forms the property does not list are neither required nor forbidden",
+            "identifiers are resolved by the abstraction function: under `*x`, an identifier that carries the receiver's name and denotes another variable is given a name of its own (so the model's comparison by name is a comparison of objects, as in the code since F21)",
         ],
         "trusted_base": ["hand-written whole-program model GGV.Model.Prog (annotation reading, indices, walks, @ignore scopes, filters) of annotations/, indexing/, immutable/, constructor/, testonly/, packageonly/, ignore/, tied by the prog correspondence (real analyzers in-process vs model on generated + corpus modules)",
                          "APF extractor (go/ast + go/types, independent of gogreement) as the abstraction function; go/types for type information"],
@@ -115,7 +116,7 @@ PROPS = {
     },
     "C06": {
         "theorems": T("C06", ["facts_serialisable", "fact_types_distinct", "export_unconditional", "checkers_require_reader", "depends_only_on_direct_imports", "import_uniform", "gob_norm_invariant", "importer_as_declarer"]),
-        "suites": [("bin", {"mode": "drivers"}), ("prog", {"focus": "ANN:IKTMP,PKGO", "n": 80, "xpkg": "1"})],
+        "suites": [("bin", {"mode": "drivers"}), ("prog", {"focus": "ANN:IKTMP,PKGO", "n": 80, "xpkg": "1"}), ("prog", {"impl": "1", "focus": "IMPL", "n": 40, "nocorpus": "1"})],
         "binary": True, "table_diag": True,
         "assumptions": ["PARTIAL: gob's byte-level encoding, vetx file handling by cmd/go and export-data importers are exercised (both drivers, subsets, gob sanity check), not modelled",
                         "facts are modelled as the annotation lists without positions (no checker reads an imported position)"],
